@@ -80,7 +80,9 @@ def setup(E, shape):
     class Oracle(SS.StepSolver):
         def __init__(self, problem, params, iterate, dt, rho):
             super().__init__(problem, params)
-            self._f = IF.ImplicitFunc(problem, iterate, dt)
+            # the real step solvers expose the plain residual function (Standard) or the
+            # lambda-scaled one (Symmetric / Asymmetric / Extended); the oracle stands for either
+            self._f = (IF.ScaledImplicitFunc if shape.get("scaled_func") else IF.ImplicitFunc)(problem, iterate, dt)
             self.dt = dt
             self.rho = rho
 
@@ -312,6 +314,9 @@ def ctrl_tasks(tier, extra=None):
         ("Fixed", "Simplified", [], {}),
         ("Exact", "Globalized", [], dict(max_solves=2, max_linesearch=2, faults=False)),
         ("Exact", "Simplified", [], dict(time_limit=True)),
+        ("Exact", "Simplified", [], dict(scaled_func=True)),
+        ("Exact", "ActiveSet", [], dict(scaled_func=True, faults=False)),
+        ("DistanceRatio", "Full", [], dict(scaled_func=True, faults=False)),
         ("DistanceRatio", "Simplified", [], dict(display=True, debug=True, faults=False)),
         ("Exact", "Simplified", [], dict(display=True, debug=True, faults=False)),
     ]
